@@ -10,7 +10,7 @@ TRUSTED = TRUSTED_BASE
 ASSUMPTIONS = _A + ['RUNTIME BEHAVIOUR NOT MODELLED: that the hidc process is a function of (source, options) is observed by compiling in '
                     'fresh interpreters under different PYTHONHASHSEED values, not proved',
                     'behaviour across stack sizes and word sizes is validated on generated programs, not proved']
-RULE = ('(a) each program compiled in 6 fresh interpreter processes with different hash seeds: byte-identical output; (b) programs that '
+RULE = ('(a) each program compiled in 6 fresh interpreter processes with different hash seeds and in different orders (forwards, backwards, shuffled): byte-identical output; (b) programs that '
         'win at stack size S behave identically at S+1, S+7, 4S; outputs at different -s differ only in the .zero directive; (c) programs '
         'whose reference behaviour is the same at w and w\' behave the same compiled for both; (d) --lint either rejects or leaves the '
         'output byte-identical; non-trivial = program for which all comparisons were made and agree')
@@ -19,13 +19,17 @@ CHILD = r'''
 import sys, hashlib
 sys.path.insert(0, %r)
 import hidlib
-srcs = eval(sys.stdin.read())
-for cfg, src in srcs:
+srcs, order = eval(sys.stdin.read())
+res = {}
+for i in order:            # the order of compilation is part of the process state a build must not depend on
+    cfg, src = srcs[i]
     try:
         lines = hidlib.compile_src(src, **cfg)
-        print(hashlib.sha256(b"\n".join(lines)).hexdigest())
+        res[i] = hashlib.sha256(b"\n".join(lines)).hexdigest()
     except Exception as e:
-        print("ERR " + type(e).__name__ + " " + hashlib.sha256(str(e).encode()).hexdigest()[:16])
+        res[i] = "ERR " + type(e).__name__ + " " + hashlib.sha256(str(e).encode()).hexdigest()[:16]
+for i in range(len(srcs)):
+    print(res[i])
 '''
 
 
@@ -57,19 +61,25 @@ def run(ctx):
     if ctx.quick: fe = ctx.rng.sample(fe, min(len(fe), 450))
     for src in fe: items.append((dict(w=2, s=100), src))
     seeds = ('0', '1', '2', '3', '12345', '987654321')
+    # each process compiles the same items, in its own order (forwards, backwards, shuffled): state that leaks from one
+    # compilation into the next (a cache, a counter, a label pool that is not reset) shows as a difference per item
+    fwd = list(range(len(items)))
+    orders = [fwd, fwd[::-1]]
+    for _ in seeds[2:]:
+        o = fwd[:]; ctx.rng.shuffle(o); orders.append(o)
     procs = []
     for hs in seeds:
         env = dict(os.environ, PYTHONHASHSEED=hs)
         procs.append(subprocess.Popen(['/venv/bin/python', '-c', CHILD % os.path.join(hidlib.VERIF, 'harness')], stdin=subprocess.PIPE,
                                       stdout=subprocess.PIPE, text=True, env=env))
     outs = []
-    for p in procs:
-        so, _ = p.communicate(repr(items), timeout=900)
+    for p, order in zip(procs, orders):
+        so, _ = p.communicate(repr((items, order)), timeout=900)
         outs.append(so.strip().split('\n'))
     nondet = [i for i in range(len(items)) if len({o[i] if i < len(o) else None for o in outs}) != 1]
     ctx.stats['determinism'] = dict(compilations=len(items), processes=len(seeds), nondeterministic=len(nondet))
     for i in nondet[:2]:
-        ctx.violations.append(dict(what='compiler output differs between interpreter processes / hash seeds', kind='NONDET',
+        ctx.violations.append(dict(what='compiler output differs between interpreter processes (hash seed, or what the process compiled before)', kind='NONDET',
                                    source=items[i][1], args=[], config=items[i][0]))
     ctx.say('determinism: %d compilations x 6 processes, %d differ' % (len(items), len(nondet)))
     # (b) stack size: textual difference only in .zero, and same behaviour above the minimum
